@@ -5,7 +5,8 @@
 //!          f = `forever().next()` (needs a pre delivery)
 //!          q = one `poll_signal` of the asynchronous back end with a non-blocking readiness
 //!              callback that records its consultations (what the adapters do)
-//!   pre    deliveries made before the call: a string over {s, t} (SIGUSR1, SIGUSR2), `-` for none
+//!   pre    deliveries made before the call: a string over {s, t} (SIGUSR1, SIGUSR2), `-` for none; for q an
+//!          upper-case letter means: deliver and poll once (leaves a stale wake-up byte behind)
 //!
 //! The call is single-stepped (trap flag); at every trap the process forks and the CHILD calls
 //! `Handle::close()` right there (inside the SIGTRAP handler, as if another thread had closed at
@@ -234,9 +235,16 @@ fn poll_sweep(pre: &str) {
     let h = Box::leak(Box::new(delivery.handle()));
     HANDLE.store(h as *mut Handle, Ordering::Relaxed);
     let mut it = SignalIterator::new(delivery);
+    // lower case: deliver; upper case: deliver and poll once (the batch the iterator holds hands the signal out
+    // and its wake-up byte stays in the pipe: a stale byte for the poll under test)
     for c in pre.chars() {
-        unsafe { libc::raise(if c == 's' { S } else { T }) };
+        unsafe { libc::raise(if c == 's' || c == 'S' { S } else { T }) };
+        if c.is_uppercase() {
+            let _ = poll_once(&mut it);
+        }
     }
+    // what is still to be reported by the poll under test and after it
+    let remaining: String = pre.chars().filter(|c| c.is_lowercase()).collect();
     STEP.store(0, Ordering::Relaxed);
     ARMED.store(true, Ordering::Relaxed);
     CB_CALLS.store(0, Ordering::Relaxed);
@@ -297,7 +305,7 @@ fn poll_sweep(pre: &str) {
     if closed_seen && r3 != "Closed" {
         bad.push(format!("STICKY a poll after Closed answered {}", r3));
     }
-    check_yields(&all, pre, &mut bad);
+    check_yields(&all, &remaining, &mut bad);
     out(&format!("K {} {} | call {} cb={}/{} | later {:?}\n", k, if bad.is_empty() { "OK".to_string() } else { format!("BAD {}", bad.join("; ")) },
                  first_txt, calls, last, later));
     if child {
